@@ -195,6 +195,14 @@ def run(ctx):
                 h = local_container(f, s_.call)
                 if h is None:
                     continue
+                # the same dereference written in the handler itself (or inlined into it)
+                direct = [y for y in ast.walk(h) if isinstance(y, ast.Attribute) and isinstance(y.ctx, ast.Load) and y.attr.startswith("__") and y.attr.endswith("__")
+                          and norm(y.value) == s_.callee_text and not any(any(z is y for b_ in tr.body for z in ast.walk(b_)) for tr in ast.walk(h) if isinstance(tr, ast.Try))]
+                if direct:
+                    n6 += 1
+                    c.ob("R6", False, f, f"{v}:handler-dereference:{norm(direct[0])}",
+                         f"the handler that contains a failing {s_.callee_text}() dereferences '{norm(direct[0])}' of the user object without a default: for a "
+                         f"functools.partial / callable instance the handler itself raises AttributeError and the original failure is no longer contained", direct[0])
                 for x in ast.walk(h):
                     if not isinstance(x, ast.Call):
                         continue
